@@ -503,6 +503,7 @@ def attach(tr):
                 "bpe": order_package.client.best_price_execution,
                 "full_match": self.order.client.simulated_full_match,
                 "book_pt": market_book.publish_time_epoch,
+                "book_is_update": market_book is getattr(TR, "current_book_obj", None),  # matched against the very update being processed
                 "mstatus": market_book.status,
                 "mversion": market_book.version,
                 "pkg_mv": order_package._market_version,
@@ -704,6 +705,8 @@ def attach(tr):
         def __call__(self, pt):
             TR.tick += 1
             TR.clock = pt
+            objs = getattr(TR, "_pending_objs", None)
+            TR.current_book_obj = objs.pop(0) if objs else None
             if TR._pending_books:
                 TR.ticks.append(TR._pending_books.pop(0))
             else:
@@ -719,6 +722,7 @@ def attach(tr):
             TR._pending_books = [
                 {"market": mb.market_id, "pt": mb.publish_time_epoch, "status": mb.status, "inplay": mb.inplay, "version": mb.version, "stream": mb.streaming_unique_id} for mb in event.event
             ]
+            TR._pending_objs = list(event.event)
             return orig(self, event)
 
         return _process_market_books
